@@ -73,7 +73,7 @@ func Register() {
 		NonTrivial: func(c map[string]int64) bool { return c["C16.sets_stored"] > 0 && c["C16.differential_msgs"] > 0 },
 		Probes: []string{"C16.experiments", "C16.valid_sets", "C16.invalid_sets", "C16.sets_stored", "C16.sets_rejected",
 			"C16.non_authority_attempts", "C16.differential_msgs", "C16.differential_blocks", "C16.genesis_imports",
-			"C16.stored_validations"},
+			"C16.stored_validations", "C16.canonical_scenarios"},
 		Rule: "a run is non-trivial when at least one generated parameter set was stored through the module's MsgUpdateParams handler on a branch and at least one workload message was executed under it and under the defaults; distinct = different fingerprint of the executed (operation kind, outcome class) sequence",
 	})
 	engine.RegisterProperty(&engine.Property{
